@@ -292,6 +292,25 @@ def check_C15(ctx, rep):
                     if isinstance(x, tuple) and x and x[0] == 'fld' and x[2].endswith('SimQueue'):
                         sides.add(x[3])
         rep.ob('C15.R2', fn, 'both-sides', sides == {'client', 'server'}, 'consults %s' % sorted(sides))
+        if name == 'no_normal_packets':
+            # both sides must be done: the answer is true only on paths where both sides answered true
+            pfq = an.paths(fn, history=True)
+            for (b, k, v) in ret_defs(fa2):
+                alts = list(v[1]) if isinstance(v, tuple) and v and v[0] == 'phi' else [v]
+                if any(num(x) == 1 for x in alts) or any(is_call(unload(x), 'no_normal_packets') for x in alts):
+                    sts = pfq.at(b, k) if k is not None else pfq.at_entry(b)
+                    for S in sts:
+                        said = {}
+                        for f in S:
+                            if f[0] in ('bcall', 'btrue'):
+                                e = f[2][0] if f[0] == 'bcall' else f[1]
+                                for z in walk(e):
+                                    if isinstance(z, tuple) and z and z[0] == 'fld' and z[2].endswith('SimQueue') and z[3] in ('client', 'server'):
+                                        said[z[3]] = f[3] if f[0] == 'bcall' else f[2]
+                        if num(v) == 1:
+                            rep.ob('C15.R2', fn, 'true-only-when-both-sides-are-done', said.get('client') is True and said.get('server') is True, 'sides answered: %s' % said)
+            cj = [fa2.rvalue(s0['rv'], (b0, k0)) for b0 in fa2.cfg.reach for k0, s0 in enumerate(fa2.blocks[b0]['s']) if 'p' in s0 and s0['rv']['k'] == 'bin']
+            rep.ob('C15.R2', fn, 'no-disjunction-of-the-sides', not any(isinstance(e, tuple) and e[0] == 'bin' and e[1] == 'BitOr' for e in cj), '')
     check_no_normal_packets_table(ctx, rep, 'C15.R2')
     rep.rule('C15.R5', 'trace parser: in parse_trace_advanced a NormalSent is queued for the client only under a successful comparison of the '
              'direction field with the literal "s" or "sn", for the server only under "r" or "rn" (so "sp"/"rp" padding lines and anything '
@@ -1345,6 +1364,10 @@ def check_C18(ctx, rep):
                    '' if (st or running) else 'path leaves the slot untouched without having tested that a timer is running: ' + show_facts(S))
             for f in st:
                 okv = f[3][0] == 'agg' and f[3][2] == 'Some' and is_new_expiry(dict(f[3][3])['0'])
+                if okv:
+                    x0 = strip_sites(dict(f[3][3])['0'])
+                    okv = ((x0[0] == 'call' and x0[1].endswith('::add')) or (x0[0] == 'bin' and x0[1] == 'Add')) and \
+                        not contains(x0, lambda y: isinstance(y, tuple) and y and ((y[0] == 'call' and y[1].endswith('::sub')) or (y[0] == 'bin' and y[1] == 'Sub')))
                 rep.ob('C18.R1', tu, 'expiry-is-now-plus-duration', okv, 'stores %s' % shape(f[3]))
                 rep.ob('C18.R1', tu, 'slot-of-own-machine', slot_index_ok(f[2], 'scheduled_internal_timer', 'UpdateTimer'), 'store to %s' % show(f[2]))
     rep.count_floor('C18.R1', 'paths through the UpdateTimer arm', n, 2)
@@ -2078,6 +2101,8 @@ def check_misc_simulator_tables(ctx, rep, pid):
             arm = [n for n, hb in arms.items() if na.cfg.dominates(hb, b)]
             if arm and arm[0] in want:
                 rep.ob('C15.R1', ns, 'network-activity-flag:%s' % arm[0], c in want[arm[0]], 'returns %s in the %s arm' % (bool(c), arm[0]))
+            elif c == 1:
+                rep.ob('C15.R1', ns, 'network-activity-flag:only-tunnel-events', False, 'returns true outside the TunnelSent / TunnelRecv arms (%s)' % (arm[:1] or 'default'))
     if pid == 'C19':
         # the consistency assertions assert that the search found something (their condition is is_some of the search result)
         for name in ('do_internal_timer', 'do_scheduled_action'):
@@ -2372,6 +2397,7 @@ def check_C19(ctx, rep):
         okv = isinstance(v2, tuple) and v2 and v2[0] == 'call' and v2[1].endswith('::add') and len(v2[2]) == 2 and v2[2][0] == ('param', 5) and \
             not contains(v2, lambda y: isinstance(y, tuple) and y and y[0] == 'call' and y[1].endswith('::sub'))
         rep.ob('C19.R4', pn2, 'event-time-only-moved-forward', okv, 'time = %s' % shape(v)[:80])
+    rep.count_floor('C19.R4', 'adjustments of a popped event\'s time in pick_next (a blocked event leaves when the blocking ends)', len(field_stores(pa2, 'time', 'SimEvent')), 1)
     check_stop_conditions(ctx, rep, 'C19.R4')
     rep.rule('C19.R7', 'a copy of the simulator\'s inputs and state is a faithful copy: every Clone impl of the simulator crate (SimQueue and its '
              'event queues, SimEvent, ScheduledAction, the network model, SimulatorArgs ...) is the compiler-derived field-wise clone, so that '
